@@ -50,12 +50,17 @@ class Sched:
         self.rv_wait = {}      # idx -> yield count when it started waiting
         self.forced = []       # forced picks after a completed rendezvous
         self.rendezvous_hits = 0
+        self.stall_s = 2.0
+        self.blocked = set()   # writers taken to be blocked inside the code under test (token taken away)
+        self.steals = 0
 
     # -- choose who runs next (lock held) ---------------------------------------------------
     def _pick(self, me=None):
         alive = sorted(self.alive)
         if not alive:
             return None
+        if self.blocked and set(alive) - self.blocked:
+            alive = [t for t in alive if t not in self.blocked]
         while self.forced:
             t = self.forced.pop(0)
             if t in self.alive:
@@ -83,17 +88,46 @@ class Sched:
         self._park(idx)
 
     def _park(self, idx):
-        if not self.sems[idx].acquire(timeout=self.park_timeout):
-            self.deadlocked = True
-            raise Deadlock(f"writer {idx} parked for {self.park_timeout}s")
+        """Wait for the token. If nobody passed a yield point for `stall_s` while this thread waited, the token
+        holder is taken to be blocked inside the code under test (e.g. on a lock of the library held by a parked
+        writer - with free-running threads the holder of that lock would simply go on): the waiting thread
+        takes the token over and the blocked one rejoins the scheduling at its next yield point. A wrong guess
+        (a holder that is merely slow) lets two writers run concurrently for a while - a legitimate
+        interleaving, only not a replayable one; it is counted in `steals`."""
+        waited = 0.0
+        seen = self.yields
+        while not self.sems[idx].acquire(timeout=self.stall_s):
+            waited += self.stall_s
+            with self.lock:
+                cur = self.current
+                if self.yields == seen and cur is not None and cur != idx and idx not in self.blocked:
+                    self.blocked.add(cur)
+                    self.steals += 1
+                    self.yields += 1  # a take-over is progress: another waiter must not take over from this one
+                    self.current = idx
+                    return
+                seen = self.yields
+            if waited >= self.park_timeout:
+                self.deadlocked = True
+                raise Deadlock(f"writer {idx} parked for {self.park_timeout}s")
 
     def yield_point(self, what=None):
         idx = self.idx_of.get(threading.get_ident())
         if idx is None or self.deadlocked:
             return
         with self.lock:
-            if self.current != idx:
+            was_blocked = idx in self.blocked
+            if was_blocked:
+                # the token was taken away while this writer was blocked; it is runnable again: wait for a turn
+                self.blocked.discard(idx)
+                self.yields += 1
+            elif self.current != idx:
                 return  # not the token holder (should not happen)
+        if was_blocked:
+            self._park(idx)
+        with self.lock:
+            if self.current != idx:
+                return
             self.yields += 1
             rv = self.rv
             if rv and idx in (0, 1) and what == rv["labels"][idx] and not self.forced:
@@ -118,6 +152,7 @@ class Sched:
     def leave(self, idx):
         with self.lock:
             self.alive.discard(idx)
+            self.blocked.discard(idx)
             self.idx_of.pop(threading.get_ident(), None)
             if self.current == idx:
                 nxt = self._pick()
